@@ -1,7 +1,9 @@
-(** Proofs for C11, part 2: Cholesky ([Model/Cholesky.v]) in exact arithmetic. *)
+(** Proofs for C11, part 2: Cholesky ([Model/Cholesky.v]): the plain sweep in exact arithmetic, the checked
+    sweep ([try_cholesky], [cholesky], [Matrix::cholesky]) against the plain sweep on any carrier, and the
+    reconstruction theorems (shared with C01). *)
 From Coq Require Import List Arith Bool Lia Reals Lra Permutation.
 From Compute Require Import Base.Ops Base.ListMat Model.Reduce Model.MatMul Model.Subst Model.Cholesky
-  Spec.Factor Proofs.C05 Proofs.LinAlgBase Proofs.C11_Subst.
+  Spec.Factor Proofs.C05 Proofs.LinAlgBase Proofs.C11_Subst Proofs.C11_Pred.
 Import ListNotations.
 Local Open Scope R_scope.
 
@@ -158,64 +160,304 @@ Proof.
     field. auto.
 Qed.
 
+(** ** any carrier: a successful checked sweep returns exactly the factor of the plain sweep, every
+    diagonal entry is the square root of a pivot that passed the [d > 0] test, and conversely a row whose
+    pivot passes the test is the plain row *)
+Section TryChol.
+  Context {T : Type} (O : Ops T).
+  Local Notation z := (zero O).
+
+  Lemma fold_append_length {X} (g : list T -> X -> T) js r0 :
+    length (fold_left (fun r j => r ++ [g r j]) js r0) = (length r0 + length js)%nat.
+  Proof.
+    revert r0; induction js as [|j js IH]; intros r0; cbn [fold_left length]; [lia|].
+    rewrite IH, app_length. cbn [length]. lia.
+  Qed.
+
+  Lemma try_step_prefix full A L n i js r0 :
+    (forall j, In j js -> j <> i) ->
+    fold_left (try_chol_step O full A L n i) js (Some r0) =
+    Some (fold_left (fun r j => r ++ [chol_entry O full A L n i r j]) js r0).
+  Proof.
+    revert r0; induction js as [|j js IH]; intros r0 H; cbn [fold_left]; auto.
+    unfold try_chol_step at 2. cbn [bind].
+    destruct (Nat.eqb_spec j i) as [E|E]; [exfalso; apply (H j); [left; auto|auto]|].
+    apply IH. intros j' Hj'. apply H. right; auto.
+  Qed.
+
+  Lemma chol_entry_diag full A L n i r :
+    chol_entry O full A L n i r i = sqrt O (chol_pivot O full A n i r).
+  Proof. unfold chol_entry, chol_pivot. rewrite Nat.eqb_refl. reflexivity. Qed.
+
+  Lemma try_chol_row_some full A L n i row :
+    try_chol_row O full A L n i = Some row ->
+    row = chol_row O full A L n i /\
+    exists d, ltb O z d = true /\ nth i row z = sqrt O d.
+  Proof.
+    unfold try_chol_row, chol_row. rewrite seq_S, !fold_left_app. cbn [Nat.add fold_left].
+    rewrite try_step_prefix by (intros j Hj; apply in_seq in Hj; lia).
+    set (r := fold_left (fun r j => r ++ [chol_entry O full A L n i r j]) (seq 0 i) []).
+    assert (Hr : length r = i) by (unfold r; rewrite fold_append_length, seq_length; reflexivity).
+    unfold try_chol_step. cbn [bind]. rewrite Nat.eqb_refl.
+    destruct (ltb O z (chol_pivot O full A n i r)) eqn:Hd; cbn [bind]; [|discriminate].
+    intros [= <-]. rewrite chol_entry_diag. split; [reflexivity|].
+    exists (chol_pivot O full A n i r). split; [exact Hd|].
+    unfold pad. rewrite app_nth1 by (rewrite app_length; cbn [length]; lia).
+    rewrite app_nth2 by lia. rewrite Hr, Nat.sub_diag. reflexivity.
+  Qed.
+
+  Lemma try_chol_row_none full A L n i :
+    try_chol_row O full A L n i = None ->
+    ltb O z (chol_pivot O full A n i (fold_left (fun r j => r ++ [chol_entry O full A L n i r j]) (seq 0 i) [])) = false.
+  Proof.
+    unfold try_chol_row. rewrite seq_S, !fold_left_app. cbn [Nat.add fold_left].
+    rewrite try_step_prefix by (intros j Hj; apply in_seq in Hj; lia).
+    unfold try_chol_step. cbn [bind]. rewrite Nat.eqb_refl.
+    destruct (ltb O z _); cbn [bind]; [discriminate|reflexivity].
+  Qed.
+
+  Lemma try_chol_row_complete full A L n i :
+    ltb O z (chol_pivot O full A n i (fold_left (fun r j => r ++ [chol_entry O full A L n i r j]) (seq 0 i) [])) = true ->
+    try_chol_row O full A L n i = Some (chol_row O full A L n i).
+  Proof.
+    intros Hd. unfold try_chol_row, chol_row. rewrite seq_S, !fold_left_app. cbn [Nat.add fold_left].
+    rewrite try_step_prefix by (intros j Hj; apply in_seq in Hj; lia).
+    unfold try_chol_step. cbn [bind]. rewrite Nat.eqb_refl, Hd. cbn [bind].
+    rewrite chol_entry_diag. reflexivity.
+  Qed.
+
+  Lemma try_chol_rows_prefix full A n k L :
+    fold_left (try_chol_rows_step O full A n) (seq 0 k) (Some []) = Some L ->
+    L = fold_left (fun L i => L ++ [chol_row O full A L n i]) (seq 0 k) [] /\
+    length L = k /\
+    forall i, (i < k)%nat -> exists d, ltb O z d = true /\ ent z L i i = sqrt O d.
+  Proof.
+    revert L; induction k as [|k IH]; intros L.
+    - cbn [seq fold_left]. intros [= <-]. repeat split; auto. intros; lia.
+    - rewrite seq_S, !fold_left_app. cbn [Nat.add fold_left].
+      destruct (fold_left (try_chol_rows_step O full A n) (seq 0 k) (Some [])) as [Lk|] eqn:Ek;
+        unfold try_chol_rows_step at 1; cbn [bind]; [|discriminate].
+      destruct (IH Lk eq_refl) as (HLk & Hlen & Hpiv).
+      destruct (try_chol_row O full A Lk n k) as [row|] eqn:Erow; cbn [bind]; [|discriminate].
+      intros [= <-]. destruct (try_chol_row_some _ _ _ _ _ _ Erow) as (Hrow & d & Hd & Hnth).
+      split; [|split].
+      + rewrite <- HLk, <- Hrow. reflexivity.
+      + rewrite app_length. cbn [length]. lia.
+      + intros i Hi. unfold ent. destruct (Nat.eq_dec i k) as [->|Hne].
+        * exists d. split; auto. rewrite app_nth2 by lia. rewrite Hlen, Nat.sub_diag. exact Hnth.
+        * rewrite app_nth1 by lia. apply Hpiv. lia.
+  Qed.
+
+  Lemma try_chol_rows_some full A n L :
+    try_chol_rows O full A n = Some L ->
+    L = chol_rows O full A n /\
+    forall i, (i < n)%nat -> exists d, ltb O z d = true /\ ent z L i i = sqrt O d.
+  Proof.
+    intros H. destruct (try_chol_rows_prefix full A n n L H) as (H1 & _ & H3). split; auto.
+  Qed.
+
+  (** [try_cholesky] panics exactly when [is_symmetric] panics or answers false *)
+  Lemma try_cholesky_shape a :
+    match is_square (length a) with
+    | None => try_cholesky O a = None
+    | Some n => if is_symmetric_rows O (unflatten a n n) n
+                then exists r, try_cholesky O a = Some r
+                else try_cholesky O a = None
+    end.
+  Proof.
+    unfold try_cholesky. destruct (is_square (length a)) as [n|]; cbn [bind]; auto.
+    destruct (is_symmetric_rows O (unflatten a n n) n); cbn [guard bind]; eauto.
+  Qed.
+
+  (** the repaired [cholesky] either panics or returns the factor [try_cholesky] found *)
+  Lemma cholesky_checked_spec a l :
+    cholesky O a = Some l <-> try_cholesky O a = Some (Some l).
+  Proof.
+    unfold cholesky. destruct (try_cholesky O a) as [[l'|]|]; cbn [bind]; split; intros H;
+      try discriminate; congruence.
+  Qed.
+End TryChol.
+
+(** ** exact arithmetic: the checked sweep succeeds exactly when every pivot of the plain sweep is positive *)
+Lemma Rltb_sqrt_pos d : ltb RO (zero RO) d = true -> 0 < R_sqrt.sqrt d.
+Proof. cbn [ltb RO zero]. intros H. apply Rltb_true in H. apply sqrt_lt_R0. exact H. Qed.
+
+(** the pivot of row [i] of the sweep *)
+Definition piv (A L : list (list R)) (i : nat) : R :=
+  ent 0 A i i - rsum (fun m => ent 0 L i m * ent 0 L i m) i.
+
+Lemma chol_pivot_val full A n i (r : list R) :
+  (i < n)%nat -> length r = i ->
+  chol_pivot RO full A n i r = ent 0 A i i - rsum (fun k => nth k r 0 * nth k r 0) i.
+Proof.
+  intros Hi Hr. unfold chol_pivot. cbn [sub zero RO]. f_equal. destruct full.
+  - rewrite dot_raw_RO by reflexivity. rewrite pad_length by lia.
+    rewrite (rsum_trunc _ i n) by (try lia; intros k Hk; rewrite !nth_pad, (nth_overflow r) by lia; lra).
+    apply rsum_ext. intros k Hk. rewrite !nth_pad. reflexivity.
+  - rewrite dot_raw_RO by (rewrite firstn_length; lia). rewrite firstn_length, Nat.min_l by lia.
+    apply rsum_ext. intros k Hk. rewrite nth_firstn_lt by auto. reflexivity.
+Qed.
+
+Lemma try_chol_rows_complete full M n :
+  (forall i, (i < n)%nat -> 0 < piv M (chol_rows RO full M n) i) ->
+  try_chol_rows RO full M n = Some (chol_rows RO full M n).
+Proof.
+  intros Hpiv.
+  set (g := fun (i : nat) (Lp : list (list R)) => chol_row RO full M Lp n i).
+  change (chol_rows RO full M n) with (build g n) in *.
+  assert (Hk : forall k, (k <= n)%nat ->
+            fold_left (try_chol_rows_step RO full M n) (seq 0 k) (Some []) = Some (build g k)).
+  { induction k as [|k IH]; intros Hkn; [reflexivity|].
+    rewrite seq_S, fold_left_app, IH by lia. cbn [Nat.add fold_left].
+    unfold try_chol_rows_step. cbn [bind].
+    rewrite try_chol_row_complete.
+    - cbn [bind]. rewrite build_S. reflexivity.
+    - (* the pivot the checked sweep tests is [piv] of the finished factor *)
+      set (ge := fun (j : nat) (r : list R) => chol_entry RO full M (build g k) n k r j).
+      change (fold_left (fun r j => r ++ [chol_entry RO full M (build g k) n k r j]) (seq 0 k) [])
+        with (build ge k).
+      cbn [ltb zero RO]. apply Rltb_true.
+      assert (Hrowk : nth k (build g n) [] = pad RO n (build ge (S k))).
+      { rewrite (build_nth [] g n k) by lia. reflexivity. }
+      assert (Hent : forall m, (m < k)%nat -> ent 0 (build g n) k m = nth m (build ge k) 0).
+      { intros m Hm. unfold ent. rewrite Hrowk, nth_pad. rewrite build_S.
+        apply app_nth1. rewrite build_length. exact Hm. }
+      rewrite (chol_pivot_val full M n k (build ge k)) by (try lia; apply build_length).
+      rewrite (rsum_ext _ (fun m => ent 0 (build g n) k m * ent 0 (build g n) k m))
+        by (intros m Hm; rewrite (Hent m Hm); reflexivity).
+      apply (Hpiv k). lia. }
+  apply (Hk n). lia.
+Qed.
+
+(** a positive diagonal of the plain factor means every pivot was positive (on R, sqrt of a
+    non-positive number is 0) *)
+Lemma chol_rec_diag_piv A L n i :
+  chol_rec A L n -> (i < n)%nat -> 0 < ent 0 L i i -> 0 < piv A L i.
+Proof.
+  intros Hrec Hi Hpos. destruct (Hrec i Hi) as (_ & Hd & _). unfold piv.
+  destruct (Rle_lt_dec (ent 0 A i i - rsum (fun k => ent 0 L i k * ent 0 L i k) i) 0) as [Hle|Hlt]; auto.
+  rewrite Hd, sqrt_neg_0 in Hpos by exact Hle. lra.
+Qed.
+
+Lemma try_chol_rows_pos full M n L :
+  try_chol_rows RO full M n = Some L ->
+  L = chol_rows RO full M n /\ forall i, (i < n)%nat -> 0 < ent 0 L i i.
+Proof.
+  intros H. destruct (try_chol_rows_some RO full M n L H) as [HL Hd]. split; auto.
+  intros i Hi. destruct (Hd i Hi) as (d & Hdp & He). cbn [zero RO] in He. rewrite He.
+  apply Rltb_sqrt_pos. exact Hdp.
+Qed.
+
+(** the two dot-product forms of the checked sweep coincide on R *)
+Lemma try_chol_rows_full_irrelevant M n : try_chol_rows RO true M n = try_chol_rows RO false M n.
+Proof.
+  assert (Hdir : forall f f', try_chol_rows RO f M n <> None -> try_chol_rows RO f' M n = try_chol_rows RO f M n).
+  { intros f f' Hne. destruct (try_chol_rows RO f M n) as [L|] eqn:E; [|congruence].
+    destruct (try_chol_rows_pos f M n L E) as [HL Hpos].
+    assert (Heq : chol_rows RO f M n = chol_rows RO f' M n)
+      by (destruct f, f'; auto; [apply chol_rows_full_irrelevant | symmetry; apply chol_rows_full_irrelevant]).
+    rewrite HL, Heq. apply try_chol_rows_complete. intros i Hi.
+    destruct (chol_rows_spec f' M n) as [_ Hrec].
+    apply (chol_rec_diag_piv M _ n i Hrec Hi). rewrite <- Heq, <- HL. apply Hpos; auto. }
+  destruct (try_chol_rows RO true M n) as [L|] eqn:Et.
+  - rewrite (Hdir true false) by (rewrite Et; discriminate). auto.
+  - destruct (try_chol_rows RO false M n) as [L|] eqn:Ef; auto.
+    pose proof (Hdir false true ltac:(rewrite Ef; discriminate)) as H. rewrite Et, Ef in H. discriminate.
+Qed.
+
+Lemma chol_dot_form_irrelevant (A : list (list R)) n :
+  chol_rows RO true A n = chol_rows RO false A n /\ try_chol_rows RO true A n = try_chol_rows RO false A n.
+Proof. split; [apply chol_rows_full_irrelevant | apply try_chol_rows_full_irrelevant]. Qed.
+
 (** ** Flat level *)
-Lemma eps_pos : 0 < eps RO.
+
+(** a successful fallible sweep: the factor of the plain sweep, with positive diagonal *)
+Lemma try_cholesky_factor a l n :
+  try_cholesky RO a = Some (Some l) -> (n * n)%nat = length a ->
+  l = flatten (chol_rows RO false (unflatten a n n) n) /\
+  length l = (n * n)%nat /\
+  (forall i, (i < n)%nat -> 0 < getm l n i i).
 Proof.
-  unfold eps. cbn [ofQ RO]. unfold Q2R. cbn [QArith_base.Qnum QArith_base.Qden].
-  apply Rmult_lt_0_compat; [lra|]. apply Rinv_0_lt_compat. apply IZR_lt. reflexivity.
+  intros H Hn. unfold try_cholesky in H. rewrite <- Hn, is_square_sq in H. cbn [bind] in H.
+  destruct (is_symmetric_rows RO (unflatten a n n) n); cbn [guard bind] in H; [|discriminate].
+  destruct (try_chol_rows RO false (unflatten a n n) n) as [L|] eqn:EL; cbn [option_map] in H; [|discriminate].
+  inversion H; subst l; clear H.
+  destruct (try_chol_rows_pos false _ _ _ EL) as [HL Hpos].
+  destruct (chol_rows_spec false (unflatten a n n) n) as [Hw _].
+  rewrite <- HL in Hw.
+  split; [rewrite HL; reflexivity|]. split; [apply (wf_flatten_length _ n Hw)|].
+  intros i Hi. unfold getm. rewrite (nth_flatten 0 L n i i Hw Hi Hi). apply Hpos; auto.
 Qed.
 
-Lemma is_symmetric_rows_exact M n :
-  (forall i j, (i < n)%nat -> (j < n)%nat -> ent 0 M i j = ent 0 M j i) -> is_symmetric_rows RO M n = true.
+(** without any symmetry assumption L.L^T reproduces the lower triangle of A *)
+Lemma try_cholesky_reconstructs_lower a l n :
+  try_cholesky RO a = Some (Some l) -> (n * n)%nat = length a ->
+  length l = (n * n)%nat /\ lower_triangular l n /\
+  (forall i, (i < n)%nat -> 0 < getm l n i i) /\
+  (forall i j, (i < n)%nat -> (j <= i)%nat ->
+     rsum (fun k => getm l n i k * getm l n j k) n = getm a n i j).
 Proof.
-  intros H. unfold is_symmetric_rows. apply forallb_forall. intros i Hi. apply in_seq in Hi.
-  apply forallb_forall. intros j Hj. apply in_seq in Hj.
-  cbn [ltb abs sub zero RO]. rewrite (H i j) by lia.
-  replace (ent 0 M j i - ent 0 M j i) with 0 by lra. rewrite Rabs_R0.
-  apply negb_true_iff, Rltb_false. pose proof eps_pos. lra.
+  intros H Hn.
+  destruct (try_cholesky_factor a l n H Hn) as (Hl & Hlen & Hpos).
+  destruct (chol_rows_spec false (unflatten a n n) n) as [Hw Hrec].
+  set (L := chol_rows RO false (unflatten a n n) n) in *.
+  assert (Hg : forall i j, (i < n)%nat -> (j < n)%nat -> getm l n i j = ent 0 L i j)
+    by (intros; subst l; apply nth_flatten; auto).
+  assert (Hpos' : forall i, (i < n)%nat -> 0 < ent 0 L i i) by (intros i Hi; rewrite <- Hg by auto; auto).
+  repeat split; auto.
+  - intros i j Hi Hj Hij. rewrite Hg by auto. destruct (Hrec i Hi) as [Hz _]. apply Hz; auto.
+  - intros i j Hi Hj.
+    rewrite (rsum_trunc _ (S j) n); [|lia|].
+    + rewrite (rsum_ext _ (fun k => ent 0 L i k * ent 0 L j k)) by (intros k Hk; rewrite !Hg by lia; reflexivity).
+      rewrite (chol_rec_reconstructs _ L n Hrec Hpos' i j Hi Hj). apply ent_unflatten; lia.
+    + intros k Hk. rewrite (Hg j k) by lia. destruct (Hrec j ltac:(lia)) as [Hz _]. rewrite Hz by lia. lra.
 Qed.
 
-Lemma is_symmetric_rows_far M n i j :
-  (i < n)%nat -> (j < n)%nat -> eps RO < Rabs (ent 0 M i j - ent 0 M j i) -> is_symmetric_rows RO M n = false.
+(** ... and all of A when A is exactly symmetric *)
+Lemma try_cholesky_reconstructs a l n :
+  try_cholesky RO a = Some (Some l) -> (n * n)%nat = length a -> symmetric a n ->
+  length l = (n * n)%nat /\ lower_triangular l n /\
+  (forall i, (i < n)%nat -> 0 < getm l n i i) /\
+  (forall i j, (i < n)%nat -> (j < n)%nat ->
+     rsum (fun k => getm l n i k * getm l n j k) n = getm a n i j).
 Proof.
-  intros Hi Hj Hfar.
-  assert (Hgen : forall i j, (i <= j)%nat -> (j < n)%nat -> eps RO < Rabs (ent 0 M i j - ent 0 M j i) ->
-                 is_symmetric_rows RO M n = false).
-  { clear. intros i j Hij Hj Hfar. unfold is_symmetric_rows.
-    destruct (forallb _ (seq 0 n)) eqn:E; auto. exfalso.
-    rewrite forallb_forall in E. specialize (E i ltac:(apply in_seq; lia)).
-    rewrite forallb_forall in E. specialize (E j ltac:(apply in_seq; lia)).
-    cbn [ltb abs sub zero RO] in E. apply negb_true_iff, Rltb_false in E. lra. }
-  destruct (Nat.le_gt_cases i j).
-  - apply (Hgen i j); auto.
-  - apply (Hgen j i); auto; try lia. rewrite Rabs_minus_sym. auto.
+  intros H Hn Hsym.
+  destruct (try_cholesky_reconstructs_lower a l n H Hn) as (Hlen & Hlow & Hpos & Hrec).
+  repeat split; auto. intros i j Hi Hj. destruct (Nat.le_gt_cases j i).
+  - apply Hrec; auto.
+  - rewrite (Hsym i j) by auto. rewrite <- (Hrec j i) by (auto; lia). apply rsum_ext. intros; lra.
+Qed.
+
+(** the statements for [cholesky] itself *)
+Lemma chol_reconstructs a l n :
+  cholesky RO a = Some l -> (n * n)%nat = length a ->
+  length l = (n * n)%nat /\ lower_triangular l n /\
+  (forall i, (i < n)%nat -> 0 < getm l n i i) /\
+  (forall i j, (i < n)%nat -> (j <= i)%nat -> rsum (fun k => getm l n i k * getm l n j k) n = getm a n i j) /\
+  (symmetric a n -> forall i j, (i < n)%nat -> (j < n)%nat ->
+     rsum (fun k => getm l n i k * getm l n j k) n = getm a n i j).
+Proof.
+  intros H Hn. apply cholesky_checked_spec in H.
+  destruct (try_cholesky_reconstructs_lower a l n H Hn) as (Hlen & Hlow & Hpos & Hrec).
+  repeat split; auto. intros Hsym.
+  destruct (try_cholesky_reconstructs a l n H Hn Hsym) as (_ & _ & _ & Hfull). exact Hfull.
 Qed.
 
 Lemma cholesky_shape a :
   match is_square (length a) with
   | None => cholesky RO a = None
   | Some n => if is_symmetric_rows RO (unflatten a n n) n
-              then exists l, cholesky RO a = Some l /\ length l = (n * n)%nat
+              then cholesky RO a = option_map flatten (try_chol_rows RO false (unflatten a n n) n)
               else cholesky RO a = None
   end.
 Proof.
-  unfold cholesky. destruct (is_square (length a)) as [n|] eqn:Hs; cbn [bind]; auto.
+  unfold cholesky, try_cholesky. destruct (is_square (length a)) as [n|] eqn:Hs; cbn [bind]; auto.
   destruct (is_symmetric_rows RO (unflatten a n n) n); cbn [guard bind]; auto.
-  eexists; split; [reflexivity|].
-  apply (wf_flatten_length _ n). apply chol_rows_spec.
-Qed.
-
-Lemma cholesky_accepts a n :
-  (n * n)%nat = length a -> symmetric a n -> exists l, cholesky RO a = Some l /\ length l = (n * n)%nat.
-Proof.
-  intros Hn Hsym. pose proof (cholesky_shape a) as H. rewrite <- Hn, is_square_sq in H.
-  rewrite is_symmetric_rows_exact in H; auto.
-  intros i j Hi Hj. rewrite !ent_unflatten by auto. apply (Hsym i j); auto.
 Qed.
 
 Lemma cholesky_rejects_asymmetric a n i j :
   (n * n)%nat = length a -> (i < n)%nat -> (j < n)%nat ->
-  eps RO < Rabs (getm a n i j - getm a n j i) -> cholesky RO a = None.
+  sym_tol (getm a n i j) (getm a n j i) < Rabs (getm a n i j - getm a n j i) -> cholesky RO a = None.
 Proof.
   intros Hn Hi Hj Hfar. pose proof (cholesky_shape a) as H. rewrite <- Hn, is_square_sq in H.
   rewrite (is_symmetric_rows_far _ n i j Hi Hj) in H; auto.
@@ -223,37 +465,26 @@ Proof.
 Qed.
 
 Lemma cholesky_not_square a : (forall n, (n * n)%nat <> length a) -> cholesky RO a = None.
-Proof. intros H. unfold cholesky. rewrite is_square_none by auto. reflexivity. Qed.
+Proof. intros H. unfold cholesky, try_cholesky. rewrite is_square_none by auto. reflexivity. Qed.
 
-Lemma chol_reconstructs a l n :
-  cholesky RO a = Some l -> (n * n)%nat = length a ->
-  (forall i, (i < n)%nat -> 0 < getm l n i i) ->
-  length l = (n * n)%nat /\ lower_triangular l n /\
-  (forall i j, (i < n)%nat -> (j <= i)%nat -> rsum (fun k => getm l n i k * getm l n j k) n = getm a n i j) /\
-  (symmetric a n -> forall i j, (i < n)%nat -> (j < n)%nat ->
-     rsum (fun k => getm l n i k * getm l n j k) n = getm a n i j).
+(** rejection of a non-positive pivot: if some pivot of the sweep is not positive, [cholesky] panics
+    ([try_cholesky] returns [None]) — in particular no factor with a NaN or zero diagonal is ever returned *)
+Lemma chol_rejects_nonpositive_pivot a n i :
+  (n * n)%nat = length a -> (i < n)%nat ->
+  piv (unflatten a n n) (chol_rows RO false (unflatten a n n) n) i <= 0 ->
+  cholesky RO a = None /\ (try_cholesky RO a = None \/ try_cholesky RO a = Some None).
 Proof.
-  intros H Hn Hpos. unfold cholesky in H. rewrite <- Hn, is_square_sq in H. cbn [bind] in H.
-  destruct (is_symmetric_rows RO (unflatten a n n) n); cbn [guard bind] in H; [|discriminate].
-  inversion H; subst l; clear H.
-  destruct (chol_rows_spec false (unflatten a n n) n) as [Hw Hrec].
-  set (L := chol_rows RO false (unflatten a n n) n) in *.
-  assert (Hg : forall i j, (i < n)%nat -> (j < n)%nat -> getm (flatten L) n i j = ent 0 L i j)
-    by (intros; apply nth_flatten; auto).
-  assert (Hpos' : forall i, (i < n)%nat -> 0 < ent 0 L i i) by (intros i Hi; rewrite <- Hg by auto; auto).
-  assert (Hlow : forall i j, (i < n)%nat -> (j <= i)%nat ->
-            rsum (fun k => getm (flatten L) n i k * getm (flatten L) n j k) n = getm a n i j).
-  { intros i j Hi Hj.
-    rewrite (rsum_trunc _ (S j) n); [|lia|].
-    - rewrite (rsum_ext _ (fun k => ent 0 L i k * ent 0 L j k)) by (intros k Hk; rewrite !Hg by lia; reflexivity).
-      rewrite (chol_rec_reconstructs _ L n Hrec Hpos' i j Hi Hj). apply ent_unflatten; lia.
-    - intros k Hk. rewrite (Hg j k) by lia. destruct (Hrec j ltac:(lia)) as [Hz _]. rewrite Hz by lia. lra. }
-  split; [apply (wf_flatten_length _ n Hw)|]. split; [|split]; auto.
-  - intros i j Hi Hj Hij. rewrite Hg by auto. destruct (Hrec i Hi) as [Hz _]. apply Hz; auto.
-  - intros Hsym i j Hi Hj. destruct (Nat.le_gt_cases j i).
-    + apply Hlow; auto.
-    + rewrite (Hsym i j) by auto. rewrite <- (Hlow j i) by (auto; lia).
-      apply rsum_ext. intros; lra.
+  intros Hn Hi Hp.
+  assert (Hnone : forall l, try_cholesky RO a <> Some (Some l)).
+  { intros l H. destruct (try_cholesky_factor a l n H Hn) as (Hl & _ & Hpos).
+    destruct (chol_rows_spec false (unflatten a n n) n) as [Hw Hrec].
+    assert (0 < piv (unflatten a n n) (chol_rows RO false (unflatten a n n) n) i).
+    { apply (chol_rec_diag_piv _ _ n i Hrec Hi). rewrite <- (nth_flatten 0 _ n i i Hw Hi Hi).
+      rewrite <- Hl. apply Hpos; auto. }
+    lra. }
+  split.
+  - destruct (cholesky RO a) as [l|] eqn:E; auto. apply cholesky_checked_spec in E. destruct (Hnone l E).
+  - destruct (try_cholesky RO a) as [[l|]|]; auto. destruct (Hnone l eq_refl).
 Qed.
 
 (** slice form and Matrix form return the same factor (exact arithmetic) *)
@@ -263,12 +494,13 @@ Lemma matrix_cholesky_eq_slice m r :
 Proof.
   unfold matrix_cholesky. destruct (well_formed m) eqn:Hwf; cbn [guard bind]; [|discriminate].
   destruct (matrix_is_positive_definite RO m) eqn:Hpd; cbn [guard bind]; [|discriminate].
+  destruct (try_chol_rows RO true (mrows m) (nc m)) as [L|] eqn:EL; cbn [bind]; [|discriminate].
   intros H. inversion H; subst r; clear H. cbn [nr nc dat].
   unfold matrix_is_positive_definite, matrix_is_symmetric in Hpd.
   apply andb_prop in Hpd. destruct Hpd as [Hsym _]. apply andb_prop in Hsym. destruct Hsym as [Hsq Hsym].
   apply Nat.eqb_eq in Hsq.
   unfold well_formed in Hwf. apply andb_prop in Hwf. destruct Hwf as [_ Hlen]. apply Nat.eqb_eq in Hlen.
   unfold mrows in *. rewrite <- Hsq in *.
-  split; auto. unfold cholesky. rewrite <- Hlen, is_square_sq. cbn [bind].
-  rewrite Hsym. cbn [guard bind]. rewrite chol_rows_full_irrelevant. reflexivity.
+  split; auto. unfold cholesky, try_cholesky. rewrite <- Hlen, is_square_sq. cbn [bind].
+  rewrite Hsym. cbn [guard bind]. rewrite <- try_chol_rows_full_irrelevant, EL. reflexivity.
 Qed.
